@@ -287,12 +287,22 @@ ContSendDone ==                                 \* <-done (reply written)
   /\ cSL' = <<"idle">> /\ Goto(scont)
   /\ UNCHANGED <<hostV, netV, cRecvCh, cRL, cDone, scall, sSyncAfter, sSynced, child, desc, bad>>
 ContSendFail ==                                 \* <-c.done while sending
-  /\ spc = "S" /\ cDone /\ Quit
+  /\ spc = "S" /\ scont # "x_syncwait" /\ cDone /\ Quit
   /\ UNCHANGED <<hostV, netV, cRecvCh, cSL, cRL, cDone, scall, sSyncAfter, sSynced, bad>>
 
 \* recvCmd fails (c.done): the handler returns an error, serve returns, init exits
 ContRecvFail ==
-  /\ spc \in {"serve", "x_syncwait", "x_eatkill", "x_started"} /\ cDone /\ Quit
+  /\ spc \in {"serve", "x_eatkill", "x_started"} /\ cDone /\ Quit
+  /\ UNCHANGED <<hostV, netV, cRecvCh, cSL, cRL, cDone, scall, sSyncAfter, sSynced, bad>>
+\* the same inside syncPid: the sync function fails.  Sync-before: Start kills the parked child and returns
+\* the error, handleExecve tries to send an error reply; sync-after: kill(-1), reap, result reply.  Whether
+\* that reply still gets onto the channel or the send itself sees c.done is Go's choice -- both end in Quit.
+ContSyncFail ==
+  /\ (spc = "x_syncwait" \/ (spc = "S" /\ scont = "x_syncwait")) /\ cDone /\ child' = "none"
+  /\ IF sSyncAfter THEN /\ desc' = "none"
+                        /\ IF Len(cSendCh) = 0 THEN SSend("result", "serve")
+                                               ELSE spc' = "exiting" /\ UNCHANGED <<scont, cSendCh>>
+                   ELSE UNCHANGED desc /\ Goto("x_startfail")
   /\ UNCHANGED <<hostV, netV, cRecvCh, cSL, cRL, cDone, scall, sSyncAfter, sSynced, bad>>
 
 \* serve: recvCmd + dispatch.  r is the reply kind the handler produces for a simple op
@@ -316,7 +326,9 @@ ContServeExec ==
 ContServeBad ==                                 \* ok / kill arriving in serve: "unknown command" -> init exits
   /\ spc = "serve" /\ Len(cRecvCh) = 1 /\ cRecvCh[1].k \notin AllOps
   /\ cRecvCh' = <<>> /\ scall' = cRecvCh[1].call
-  /\ bad' = bad \cup {"cmd_in_wrong_state"}
+  \* (with c.done already closed the server is on its way out whatever it reads: a leftover `ok` picked by
+  \*  Go's select instead of <-c.done changes nothing)
+  /\ bad' = (IF cDone THEN bad ELSE bad \cup {"cmd_in_wrong_state"})
   /\ Quit
   /\ UNCHANGED <<hostV, netV, cSL, cRL, cDone, sSyncAfter, sSynced>>
 
@@ -355,8 +367,10 @@ ContSyncGot ==                                  \* syncPid: recvCmd; kill => err
   /\ UNCHANGED <<hostV, netV, cSL, cRL, cDone, scall, sSyncAfter>>
 
 ContStartFailed ==                              \* Start returned the sync error: error reply, back to serve
-  /\ spc = "x_startfail" /\ SSend("err", "serve")
-  /\ UNCHANGED <<hostV, netV, cRecvCh, cSL, cRL, cDone, scall, sSyncAfter, sSynced, child, desc, bad>>
+  /\ spc = "x_startfail"
+  /\ IF Len(cSendCh) = 0 THEN SSend("err", "serve") /\ UNCHANGED <<child, desc>>
+                         ELSE cDone /\ spc' = "exiting" /\ UNCHANGED <<scont, cSendCh, child, desc>>
+  /\ UNCHANGED <<hostV, netV, cRecvCh, cSL, cRL, cDone, scall, sSyncAfter, sSynced, bad>>
 ContExecOk ==
   /\ spc = "x_exec" /\ child' = "running" /\ UNCHANGED desc /\ Goto("x_started")
   /\ UNCHANGED <<hostV, netV, cRecvCh, cSL, cRL, cDone, scall, sSyncAfter, sSynced, bad>>
@@ -420,7 +434,7 @@ HostApiNext ==
 HostLoopNext == HostSLTake \/ HostSLExit \/ HostSLTooBig \/ HostSLSend \/ HostSLErr \/ HostRLRecv \/ HostRLErr \/ HostRLPush
 ContLoopNext == ContRLRecv \/ ContRLErr \/ ContRLPush \/ ContSLTake \/ ContSLSend \/ ContSLErr
 ContSrvNext ==
-  \/ ContSendDone \/ ContSendFail \/ ContRecvFail
+  \/ ContSendDone \/ ContSendFail \/ ContRecvFail \/ ContSyncFail
   \/ (\E r \in {"ack", "err", "batch", "die"} : ContServeSimple(r)) \/ ContServeExec \/ ContServeBad
   \/ ContPreforkErr \/ ContFork \/ ContStartErrEarly \/ ContStartSync \/ ContStartAfter
   \/ InitExit \/ ContStartFailed
@@ -432,6 +446,9 @@ Next == SysNext \/ EnvNext
 
 \* fairness on the system's own steps (and on the kernel delivering Pdeathsig), none on the environment
 Spec == Init /\ [][Next]_vars /\ WF_vars(SysNext) /\ WF_vars(Pdeathsig)
+\* the parent-death signal may never be delivered (e.g. the controller dropped privileges: the kernel checks
+\* the permission to signal with the dying parent's credentials): the end-of-stream path alone must suffice
+SpecNoPdeathsig == Init /\ [][Next]_vars /\ WF_vars(SysNext)
 \* "every call returns" presupposes that a running program ends or is cancelled
 SpecLive == Spec /\ WF_vars(ChildExit)
 
